@@ -5,6 +5,7 @@
 import StVerif.Lemmas.Codec
 import StVerif.Lemmas.CodecDecode
 import StVerif.Lemmas.KernelBridge
+import StVerif.Lemmas.KernelLoopsCodec
 
 namespace StVerif.Props.C14
 open StVerif StVerif.Codec StVerif.Lemmas.Codec
@@ -148,5 +149,14 @@ example : hexEncode [0, 255, 16] = [48, 48, 102, 102, 49, 48] := by decide
 theorem encode_size_is_model (n : Nat) (h : n < 2 ^ 62) :
     StVerif.Generated.Kernels.b64_encode_size n = .ok (StVerif.Codec.b64EncodeSize n) :=
   KernelBridge.b64_encode_size_eq n h
+
+/-- `_ST_PRIVATE::hex_encode` and `b64_encode` as translated from include/st_codecs_priv.h on every run (loops, the
+    `switch (size)` tail, the alphabets as the tables the function declares) are the model's encoders for every input:
+    no load outside the source (`sp[1]`, `sp[2]` of a tail are read only when present), every table index inside the
+    alphabet, the `default:` assertion unreachable -/
+theorem translated_encoders_are_model (mem : List Nat) (hb : ∀ b ∈ mem, b < 256) (fuel : Nat) (hf : mem.length < fuel) :
+    StVerif.Generated.Kernels.hex_encode mem fuel 0 mem.length = .ok (StVerif.Codec.hexEncode mem) ∧
+    StVerif.Generated.Kernels.b64_encode mem fuel 0 mem.length = .ok (StVerif.Codec.b64Encode mem) :=
+  ⟨KernelBridge.hex_encode_eq mem fuel hf, KernelBridge.b64_encode_eq mem hb fuel hf⟩
 
 end StVerif.Props.C14
